@@ -17,6 +17,7 @@ MCDesc ==
     [] DescName = "or"     -> [t |-> "or"]
     [] DescName = "map_mv" -> [t |-> "map", of |-> [t |-> "mv"]]
     [] DescName = "map_or" -> [t |-> "map", of |-> [t |-> "or"]]
+    [] DescName = "map_map_mv" -> [t |-> "map", of |-> [t |-> "map", of |-> [t |-> "mv"]]]
 
 Rec == ndJsonDeserialize(IOEnv.TRACE)
 VARIABLES l, bad
